@@ -1,0 +1,931 @@
+//go:build verif
+
+package dtlcp
+
+// Scripted peer (build tag `verif` only, add-only).
+//
+// A VerifScript plays a DTLCP *server against a real client* (Role "server") or a *client
+// against a real server* (Role "client") one message at a time, in ANY order the harness asks
+// for, while keeping its OWN transcript, master secret and record protection consistent with
+// what it actually sent and received.  A deviation from the legal message order is therefore
+// never masked by a Finished or record-MAC mismatch: if the real endpoint completes, it did so
+// because it accepted that order.  All cryptography is the package's own (message types,
+// eccKeyAgreement / sm2ECDHEKeyAgreement, finishedHash, keysFromMasterSecret, halfConn).
+//
+// API summary
+//
+//	s := dtlcp.NewVerifScript("server"|"client", pconn, peerAddr, cfg)
+//	    cfg.Certificates = [sig, enc] key pairs of the script's own role; cfg.CipherSuites
+//	    (first entry = suite a scripted server selects / list a scripted client offers);
+//	    cfg.ClientCAs (names put into CertificateRequest); cfg.Rand, cfg.Time.
+//	knobs (fields, set before the Send they influence):
+//	    Suite, SessionID, ResumeMaster  – suite to select, session id to send/offer, master
+//	                                      secret of the session being resumed
+//	receiving:
+//	    ev, err := s.ReadMsg()          – next handshake message / ChangeCipherSpec / alert /
+//	                                      application data record of the peer (blocking); the
+//	                                      message is absorbed (transcript, certificates, key
+//	                                      exchange, master secret, read keys on CCS)
+//	    evs := s.ReadAvailable()        – everything the peer has already written (in-memory
+//	                                      transports: read deadline in the past)
+//	    err := s.ExpectCCS()            – ReadMsg until ChangeCipherSpec
+//	sending (opts may be nil):
+//	    s.Send(kind, opts)              – kind = "ClientHello" | "ServerHello" | "Certificate" |
+//	                                      "ServerKeyExchange" | "CertificateRequest" |
+//	                                      "ServerHelloDone" | "ClientKeyExchange" |
+//	                                      "CertificateVerify" | "Finished" | "HelloVerifyRequest";
+//	                                      any kind may be sent by either role at any time.
+//	                                      Every record goes out as its own datagram unless
+//	                                      s.Hold is set (then s.Flush() sends one datagram).
+//	                                      A ClientHello carries the cookie of the last
+//	                                      HelloVerifyRequest received (client role); it replaces
+//	                                      the previous ClientHello in the transcript while no
+//	                                      ServerHello has been seen and is left out afterwards
+//	                                      (the real endpoints do the same); HelloVerifyRequest
+//	                                      is never part of the transcript.
+//	    s.SendCCS()                     – ChangeCipherSpec; installs the write keys when the
+//	                                      master secret is known
+//	    s.SendAlert(level, desc), s.SendAppData(p), s.SendEmptyRecord(recordType),
+//	    s.SendRecord(recordType, payload)
+//	opts (VerifSendOpts): Body / Raw (caller supplied message), Mutate, NoTranscript,
+//	    Certificates / EmptyCerts (chain to send), Random, SessionID, SignKey, SignClientRandom,
+//	    SignServerRandom, SignEncCert (ServerKeyExchange / CertificateVerify signed by another
+//	    key or over other data), Again (re-send the previous message of that kind verbatim)
+//	state: Master(), ClientRandom(), ServerRandom(), SessionIDInUse(), Transcript(),
+//	    PeerCertificates(), PeerFinishedOK, PeerCertVerifyOK, PeerSKXErr, LastAlert, Events
+//
+// Message kinds are named as in HandshakeMessageTypeName-free plain English above; records other
+// than handshake are reported as "ChangeCipherSpec", "Alert", "ApplicationData".
+
+import (
+	"bytes"
+	"crypto"
+	"errors"
+	"fmt"
+	"hash"
+	"io"
+	"net"
+	"time"
+
+	"github.com/emmansun/gmsm/sm2"
+	x509 "github.com/emmansun/gmsm/smx509"
+)
+
+// VerifEvent is one thing received from the peer.
+type VerifEvent struct {
+	Kind string // handshake message kind, "ChangeCipherSpec", "Alert", "ApplicationData", "Unknown"
+	Raw  []byte // handshake: whole message with its 4-byte header; otherwise the record payload
+}
+
+// VerifSendOpts tweaks one Send.
+type VerifSendOpts struct {
+	Body         []byte                  // message body to send instead of the generated one
+	Raw          []byte                  // whole message (header included) to send instead
+	Mutate       func(msg []byte) []byte // edits the marshalled message before sending/recording
+	NoTranscript bool                    // do not add the message to the script's transcript
+	Again        bool                    // re-send the last message of this kind byte for byte
+
+	Certificates [][]byte // Certificate: chain to send instead of Config.Certificates
+	EmptyCerts   bool     // Certificate: send an empty list
+	Random       []byte   // ClientHello / ServerHello: random to use
+	SessionID    []byte   // ClientHello / ServerHello: session id to use (overrides the knob)
+	Cookie       []byte   // ClientHello / HelloVerifyRequest: cookie to use
+	KeepSeq      bool     // do not overwrite the message_seq of a caller-supplied message
+	MessageSeq   *uint16  // message_seq to use instead of the script's running counter
+
+	SignKey          crypto.PrivateKey // ServerKeyExchange / CertificateVerify: sign with this key
+	SignClientRandom []byte            // ServerKeyExchange: sign over this client random
+	SignServerRandom []byte            // ServerKeyExchange: sign over this server random
+	SignEncCert      []byte            // ServerKeyExchange (ECC): sign over this certificate
+}
+
+// VerifScript is the scripted peer; see the file comment.
+type VerifScript struct {
+	Role   string
+	Conn   net.PacketConn
+	Peer   net.Addr
+	Config *Config
+
+	Hold   bool   // buffer outgoing records; Flush sends them as one datagram
+	Cookie []byte // server role: cookie to put into HelloVerifyRequest (nil: 32 random bytes); client role: last cookie received
+
+	Suite        uint16 // server: suite to select (0: first of Config.cipherSuites() the client offers)
+	SessionID    []byte // server: ServerHello.session_id (nil: random / echo when resuming); client: offered id
+	ResumeMaster []byte // non-nil: resume with this master secret
+
+	Events           []VerifEvent
+	LastAlert        []byte // level, description of the last alert received
+	PeerFinishedOK   bool   // the peer's Finished matched the script's transcript and master secret
+	PeerCertVerifyOK bool   // the peer's CertificateVerify verified over the script's transcript
+	PeerSKXErr       error  // result of processing the peer's ServerKeyExchange (client role)
+	CertRequested    bool   // a CertificateRequest was received (client role)
+	Resuming         bool   // this handshake resumes ResumeMaster
+
+	c           *Conn // carrier of config, in/out half connections; never runs a handshake
+	raw         []byte // rest of the datagram being parsed
+	hand        []byte
+	held        []byte
+	msgSeq      uint16
+	wEpoch      uint16
+	wSeq        uint64
+	rEpoch      uint16
+	seenSeq     map[uint16]bool
+	frags       map[uint16][]byte
+	helloRandom []byte
+	msgs        [][]byte // transcript, in the order sent / received
+	clientHello *clientHelloMsg
+	serverHello *serverHelloMsg
+	suite       *cipherSuite
+	ka          keyAgreementProtocol
+	master      []byte
+	keysReady   bool
+	peerCerts   []*x509.Certificate
+	peerCertDER [][]byte
+	lastSent    map[string][]byte
+}
+
+// NewVerifScript creates a scripted peer over conn. role is "server" or "client".
+func NewVerifScript(role string, conn net.PacketConn, peer net.Addr, cfg *Config) *VerifScript {
+	if cfg == nil {
+		cfg = &Config{}
+	}
+	s := &VerifScript{Role: role, Conn: conn, Peer: peer, Config: cfg, lastSent: map[string][]byte{},
+		seenSeq: map[uint16]bool{}, frags: map[uint16][]byte{}}
+	s.c = &Conn{pconn: conn, remoteAddr: peer, config: cfg, isClient: role == "client", vers: VersionTLCP, haveVers: true,
+		pendingFragments: map[uint16]*fragmentBuffer{}}
+	s.c.in.version = VersionTLCP
+	s.c.out.version = VersionTLCP
+	return s
+}
+
+var verifKindOfType = map[uint8]string{
+	typeClientHello: "ClientHello", typeServerHello: "ServerHello", typeHelloVerifyRequest: "HelloVerifyRequest",
+	typeCertificate: "Certificate",
+	typeServerKeyExchange: "ServerKeyExchange", typeCertificateRequest: "CertificateRequest",
+	typeServerHelloDone: "ServerHelloDone", typeCertificateVerify: "CertificateVerify",
+	typeClientKeyExchange: "ClientKeyExchange", typeFinished: "Finished",
+}
+
+var verifTypeOfKind = func() map[string]uint8 {
+	m := map[string]uint8{}
+	for t, k := range verifKindOfType {
+		m[k] = t
+	}
+	return m
+}()
+
+// ---------------------------------------------------------------------------- state access
+
+func (s *VerifScript) Master() []byte { return append([]byte(nil), s.master...) }
+func (s *VerifScript) ClientRandom() []byte {
+	if s.clientHello == nil {
+		return nil
+	}
+	return s.clientHello.random
+}
+func (s *VerifScript) ServerRandom() []byte {
+	if s.serverHello == nil {
+		return nil
+	}
+	return s.serverHello.random
+}
+
+// SessionIDInUse is the session id of the ServerHello sent / received.
+func (s *VerifScript) SessionIDInUse() []byte {
+	if s.serverHello == nil {
+		return nil
+	}
+	return s.serverHello.sessionId
+}
+
+// OfferedSessionID is the session id of the ClientHello sent / received.
+func (s *VerifScript) OfferedSessionID() []byte {
+	if s.clientHello == nil {
+		return nil
+	}
+	return s.clientHello.sessionId
+}
+func (s *VerifScript) SuiteInUse() uint16 {
+	if s.suite == nil {
+		return 0
+	}
+	return s.suite.id
+}
+func (s *VerifScript) Transcript() [][]byte                  { return s.msgs }
+func (s *VerifScript) PeerCertificates() []*x509.Certificate { return s.peerCerts }
+func (s *VerifScript) WriteProtected() bool                  { return s.c.out.cipher != nil }
+func (s *VerifScript) ReadProtected() bool                   { return s.c.in.cipher != nil }
+
+// ---------------------------------------------------------------------------- record layer
+
+func (s *VerifScript) writeRecord(typ recordType, payload []byte) error {
+	hdr := make([]byte, recordHeaderLen, recordHeaderLen+len(payload)+64)
+	hdr[0] = byte(typ)
+	hdr[1] = byte(VersionTLCP >> 8)
+	hdr[2] = byte(VersionTLCP & 0xff)
+	hdr[3], hdr[4] = byte(s.wEpoch>>8), byte(s.wEpoch)
+	hdr[5], hdr[6], hdr[7] = byte(s.wSeq>>40), byte(s.wSeq>>32), byte(s.wSeq>>24)
+	hdr[8], hdr[9], hdr[10] = byte(s.wSeq>>16), byte(s.wSeq>>8), byte(s.wSeq)
+	hdr[11], hdr[12] = byte(len(payload)>>8), byte(len(payload))
+	copy(s.c.out.seq[:], hdr[3:11])
+	rec, err := s.c.out.encrypt(hdr, payload, s.Config.rand())
+	if err != nil {
+		return err
+	}
+	n := len(rec) - recordHeaderLen
+	rec[11], rec[12] = byte(n>>8), byte(n)
+	s.wSeq++
+	if s.Hold {
+		s.held = append(s.held, rec...)
+		return nil
+	}
+	_, err = s.Conn.WriteTo(rec, s.Peer)
+	return err
+}
+
+// Flush sends the records buffered while Hold was set as one datagram.
+func (s *VerifScript) Flush() error {
+	if len(s.held) == 0 {
+		return nil
+	}
+	d := s.held
+	s.held = nil
+	_, err := s.Conn.WriteTo(d, s.Peer)
+	return err
+}
+
+// SendRecord writes one record of the given type with the given plaintext payload (protected
+// with the current write keys, if any). Handshake payloads longer than a record are not split.
+func (s *VerifScript) SendRecord(typ uint8, payload []byte) error {
+	return s.writeRecord(recordType(typ), payload)
+}
+
+// SendEmptyRecord writes a record of the given type with an empty payload.
+func (s *VerifScript) SendEmptyRecord(typ uint8) error { return s.writeRecord(recordType(typ), nil) }
+
+// SendAlert writes an alert record.
+func (s *VerifScript) SendAlert(level, desc uint8) error {
+	return s.writeRecord(recordTypeAlert, []byte{level, desc})
+}
+
+// SendAppData writes an application data record.
+func (s *VerifScript) SendAppData(p []byte) error {
+	return s.writeRecord(recordTypeApplicationData, p)
+}
+
+// SendCCS writes ChangeCipherSpec and, when the master secret is known, switches the write
+// direction to the negotiated keys.
+func (s *VerifScript) SendCCS() error {
+	if err := s.writeRecord(recordTypeChangeCipherSpec, []byte{1}); err != nil {
+		return err
+	}
+	s.prepareKeys()
+	if s.c.out.nextCipher != nil {
+		_ = s.c.out.changeCipherSpec()
+	}
+	// a new epoch starts after every ChangeCipherSpec, keys or not (as writeRecordLocked does)
+	s.wEpoch++
+	s.wSeq = 0
+	return nil
+}
+
+func (s *VerifScript) readRecord() (recordType, []byte, error) {
+	for {
+		if len(s.raw) >= recordHeaderLen {
+			n := int(s.raw[11])<<8 | int(s.raw[12])
+			if len(s.raw) >= recordHeaderLen+n {
+				rec := append([]byte(nil), s.raw[:recordHeaderLen+n]...)
+				s.raw = s.raw[recordHeaderLen+n:]
+				epoch := uint16(rec[3])<<8 | uint16(rec[4])
+				if epoch < s.rEpoch {
+					continue // retransmission of an earlier flight
+				}
+				copy(s.c.in.seq[:], rec[3:11])
+				data, typ, err := s.c.in.decrypt(rec)
+				if err != nil {
+					return typ, nil, fmt.Errorf("verif script: cannot open record: %v", err)
+				}
+				return typ, data, nil
+			}
+			s.raw = nil // truncated datagram
+		}
+		buf := make([]byte, maxCiphertext+recordHeaderLen+2048)
+		n, _, err := s.Conn.ReadFrom(buf)
+		if err != nil {
+			return 0, nil, err
+		}
+		s.raw = buf[:n]
+	}
+}
+
+// nextHandshake extracts the next complete handshake message from s.hand, reassembling
+// in-order fragments; ok=false when more data is needed.
+func (s *VerifScript) nextHandshake() (raw []byte, ok bool) {
+	for len(s.hand) >= dtlcpHeaderLen {
+		bodyLen := int(s.hand[1])<<16 | int(s.hand[2])<<8 | int(s.hand[3])
+		seq := uint16(s.hand[4])<<8 | uint16(s.hand[5])
+		fragOff := int(s.hand[6])<<16 | int(s.hand[7])<<8 | int(s.hand[8])
+		fragLen := int(s.hand[9])<<16 | int(s.hand[10])<<8 | int(s.hand[11])
+		if len(s.hand) < dtlcpHeaderLen+fragLen {
+			return nil, false
+		}
+		frag := s.hand[:dtlcpHeaderLen+fragLen]
+		s.hand = s.hand[dtlcpHeaderLen+fragLen:]
+		if s.seenSeq[seq] && frag[0] != typeClientHello && frag[0] != typeHelloVerifyRequest {
+			continue // duplicate of a message already delivered
+		}
+		if fragOff == 0 && fragLen == bodyLen {
+			s.seenSeq[seq] = true
+			return append([]byte(nil), frag...), true
+		}
+		buf := s.frags[seq]
+		if buf == nil {
+			buf = make([]byte, dtlcpHeaderLen, dtlcpHeaderLen+bodyLen)
+			copy(buf, frag[:dtlcpHeaderLen])
+			buf[6], buf[7], buf[8] = 0, 0, 0
+			buf[9], buf[10], buf[11] = buf[1], buf[2], buf[3]
+		}
+		if fragOff == len(buf)-dtlcpHeaderLen {
+			buf = append(buf, frag[dtlcpHeaderLen:]...)
+		}
+		s.frags[seq] = buf
+		if len(buf)-dtlcpHeaderLen >= bodyLen {
+			delete(s.frags, seq)
+			s.seenSeq[seq] = true
+			return buf, true
+		}
+	}
+	return nil, false
+}
+
+// ReadMsg returns the next message of the peer and absorbs it into the script's state.
+func (s *VerifScript) ReadMsg() (VerifEvent, error) {
+	for {
+		if raw, ok := s.nextHandshake(); ok {
+			ev := VerifEvent{Kind: verifKindOfType[raw[0]], Raw: raw}
+			if ev.Kind == "" {
+				ev.Kind = "Unknown"
+			}
+			s.absorb(ev)
+			s.Events = append(s.Events, ev)
+			return ev, nil
+		}
+		typ, data, err := s.readRecord()
+		if err != nil {
+			return VerifEvent{}, err
+		}
+		switch typ {
+		case recordTypeHandshake:
+			s.hand = append(s.hand, data...)
+			continue
+		case recordTypeChangeCipherSpec:
+			s.prepareKeys()
+			if s.c.in.nextCipher != nil {
+				_ = s.c.in.changeCipherSpec()
+			}
+			s.rEpoch++
+			ev := VerifEvent{Kind: "ChangeCipherSpec", Raw: append([]byte(nil), data...)}
+			s.Events = append(s.Events, ev)
+			return ev, nil
+		case recordTypeAlert:
+			ev := VerifEvent{Kind: "Alert", Raw: append([]byte(nil), data...)}
+			s.LastAlert = ev.Raw
+			s.Events = append(s.Events, ev)
+			return ev, nil
+		case recordTypeApplicationData:
+			ev := VerifEvent{Kind: "ApplicationData", Raw: append([]byte(nil), data...)}
+			s.Events = append(s.Events, ev)
+			return ev, nil
+		default:
+			ev := VerifEvent{Kind: "Unknown", Raw: append([]byte(nil), data...)}
+			s.Events = append(s.Events, ev)
+			return ev, nil
+		}
+	}
+}
+
+// ReadAvailable absorbs and returns everything the peer has already written. It relies on the
+// transport delivering buffered bytes before honouring an expired read deadline (the harness's
+// in-memory pipes do).
+func (s *VerifScript) ReadAvailable() []VerifEvent {
+	var out []VerifEvent
+	_ = s.Conn.SetReadDeadline(time.Now().Add(-time.Hour))
+	defer s.Conn.SetReadDeadline(time.Time{})
+	for {
+		ev, err := s.ReadMsg()
+		if err != nil {
+			return out
+		}
+		out = append(out, ev)
+	}
+}
+
+// ExpectCCS reads until the peer's ChangeCipherSpec (which switches the read keys).
+func (s *VerifScript) ExpectCCS() error {
+	for {
+		ev, err := s.ReadMsg()
+		if err != nil {
+			return err
+		}
+		switch ev.Kind {
+		case "ChangeCipherSpec":
+			return nil
+		case "Alert":
+			return fmt.Errorf("verif script: alert %v while waiting for ChangeCipherSpec", ev.Raw)
+		}
+	}
+}
+
+// ---------------------------------------------------------------------------- handshake state
+
+func (s *VerifScript) fh() finishedHash {
+	suite := s.suite
+	if suite == nil {
+		suite = cipherSuites[ECC_SM4_GCM_SM3]
+	}
+	h := newFinishedHash(VersionTLCP, suite)
+	for _, m := range s.msgs {
+		h.Write(m)
+	}
+	return h
+}
+
+func (s *VerifScript) masterOrZero() []byte {
+	if len(s.master) > 0 {
+		return s.master
+	}
+	return make([]byte, masterSecretLength)
+}
+
+func (s *VerifScript) randoms() (cr, sr []byte) {
+	cr, sr = make([]byte, 32), make([]byte, 32)
+	if s.clientHello != nil && len(s.clientHello.random) == 32 {
+		cr = s.clientHello.random
+	}
+	if s.serverHello != nil && len(s.serverHello.random) == 32 {
+		sr = s.serverHello.random
+	}
+	return
+}
+
+// prepareKeys derives the record keys once the master secret and both hellos are known.
+func (s *VerifScript) prepareKeys() {
+	if s.keysReady || len(s.master) == 0 || s.suite == nil {
+		return
+	}
+	cr, sr := s.randoms()
+	suite := s.suite
+	_, clientMAC, serverMAC, clientKey, serverKey, clientIV, serverIV :=
+		keysFromMasterSecret(VersionTLCP, suite, s.master, cr, sr, suite.macLen, suite.keyLen, suite.ivLen)
+	var rd, wr interface{}
+	var rdMAC, wrMAC hash.Hash
+	rk, riv, rmac, wk, wiv, wmac := clientKey, clientIV, clientMAC, serverKey, serverIV, serverMAC
+	if s.Role != "server" {
+		rk, riv, rmac, wk, wiv, wmac = serverKey, serverIV, serverMAC, clientKey, clientIV, clientMAC
+	}
+	if suite.aead == nil {
+		rd, rdMAC = suite.cipher(rk, riv, true), suite.mac(rmac)
+		wr, wrMAC = suite.cipher(wk, wiv, false), suite.mac(wmac)
+	} else {
+		rd, wr = suite.aead(rk, riv), suite.aead(wk, wiv)
+	}
+	s.c.in.prepareCipherSpec(VersionTLCP, rd, rdMAC)
+	s.c.out.prepareCipherSpec(VersionTLCP, wr, wrMAC)
+	s.keysReady = true
+}
+
+func (s *VerifScript) setMaster(m []byte) {
+	if len(m) == 0 || len(s.master) > 0 {
+		return
+	}
+	s.master = append([]byte(nil), m...)
+}
+
+func (s *VerifScript) ownCert(i int) *Certificate {
+	if i < len(s.Config.Certificates) {
+		return &s.Config.Certificates[i]
+	}
+	return nil
+}
+
+func (s *VerifScript) serverHS() *serverHandshakeState {
+	ch, sh := s.clientHello, s.serverHello
+	cr, sr := s.randoms()
+	if ch == nil {
+		ch = &clientHelloMsg{vers: VersionTLCP, random: cr}
+	}
+	if sh == nil {
+		sh = &serverHelloMsg{vers: VersionTLCP, random: sr}
+	}
+	return &serverHandshakeState{c: s.c, clientHello: ch, hello: sh, suite: s.suite,
+		sigCert: s.ownCert(0), encCert: s.ownCert(1), peerCertificates: s.peerCerts}
+}
+
+func (s *VerifScript) clientHS() *clientHandshakeState {
+	ch, sh := s.clientHello, s.serverHello
+	cr, sr := s.randoms()
+	if ch == nil {
+		ch = &clientHelloMsg{vers: VersionTLCP, random: cr}
+	}
+	if sh == nil {
+		sh = &serverHelloMsg{vers: VersionTLCP, random: sr}
+	}
+	return &clientHandshakeState{c: s.c, hello: ch, serverHello: sh, suite: s.suite,
+		authCert: s.ownCert(0), encCert: s.ownCert(1), peerCertificates: s.peerCerts}
+}
+
+func (s *VerifScript) keyAgreement() keyAgreementProtocol {
+	if s.ka == nil && s.suite != nil {
+		s.ka = s.suite.ka(VersionTLCP)
+	}
+	return s.ka
+}
+
+func verifGuard(f func()) (err error) {
+	defer func() {
+		if r := recover(); r != nil {
+			err = fmt.Errorf("panic: %v", r)
+		}
+	}()
+	f()
+	return nil
+}
+
+// absorb updates the script's view with a received handshake message.
+func (s *VerifScript) absorb(ev VerifEvent) {
+	raw := ev.Raw
+	switch ev.Kind {
+	case "ClientHello":
+		m := new(clientHelloMsg)
+		if m.unmarshal(raw) {
+			s.clientHello = m
+		}
+	case "ServerHello":
+		m := new(serverHelloMsg)
+		if m.unmarshal(raw) {
+			s.serverHello = m
+			s.suite = cipherSuites[m.cipherSuite]
+			if s.ResumeMaster != nil && s.clientHello != nil && len(m.sessionId) > 0 &&
+				bytes.Equal(m.sessionId, s.clientHello.sessionId) {
+				s.Resuming = true
+				s.setMaster(s.ResumeMaster)
+			}
+		}
+	case "HelloVerifyRequest":
+		m := new(helloVerifyRequestMsg)
+		if m.unmarshal(raw) {
+			s.Cookie = append([]byte(nil), m.cookie...)
+		}
+	case "Certificate":
+		m := new(certificateMsg)
+		if m.unmarshal(raw) {
+			s.peerCertDER = m.certificates
+			s.peerCerts = nil
+			for _, der := range m.certificates {
+				if c, err := x509.ParseCertificate(der); err == nil {
+					s.peerCerts = append(s.peerCerts, c)
+				}
+			}
+		}
+	case "ServerKeyExchange":
+		m := new(serverKeyExchangeMsg)
+		if m.unmarshal(raw) && s.keyAgreement() != nil {
+			var perr error
+			if e := verifGuard(func() { perr = s.ka.processServerKeyExchange(s.clientHS(), m) }); e != nil {
+				perr = e
+			}
+			s.PeerSKXErr = perr
+		}
+	case "CertificateRequest":
+		s.CertRequested = true
+	case "ClientKeyExchange":
+		m := new(clientKeyExchangeMsg)
+		if m.unmarshal(raw) && s.keyAgreement() != nil && !s.Resuming {
+			var pre []byte
+			var perr error
+			if e := verifGuard(func() { pre, perr = s.ka.processClientKeyExchange(s.serverHS(), m) }); e == nil && perr == nil && len(pre) > 0 {
+				cr, sr := s.randoms()
+				s.setMaster(masterFromPreMasterSecret(VersionTLCP, s.suite, pre, cr, sr))
+			}
+		}
+	case "CertificateVerify":
+		m := new(certificateVerifyMsg)
+		if m.unmarshal(raw) && len(s.peerCerts) > 0 && s.suite != nil {
+			if sigType, newHash, err := typeAndHashFrom(s.suite.id); err == nil {
+				h := s.fh()
+				s.PeerCertVerifyOK = verifyHandshakeSignature(sigType, s.peerCerts[0].PublicKey, newHash, h.Sum(), m.signature) == nil
+			}
+		}
+	case "Finished":
+		m := new(finishedMsg)
+		if m.unmarshal(raw) {
+			h := s.fh()
+			var want []byte
+			if s.Role == "server" {
+				want = h.clientSum(s.masterOrZero())
+			} else {
+				want = h.serverSum(s.masterOrZero())
+			}
+			s.PeerFinishedOK = len(s.master) > 0 && bytes.Equal(want, m.verifyData)
+		}
+	}
+	s.record(ev.Kind, raw)
+}
+
+// record adds a message to the transcript the way the real endpoints do: HelloVerifyRequest
+// never; a ClientHello replaces the previous one until a ServerHello has been seen and is left
+// out afterwards (retransmission); everything else is appended.
+func (s *VerifScript) record(kind string, raw []byte) {
+	switch kind {
+	case "HelloVerifyRequest":
+		return
+	case "ClientHello":
+		if s.serverHello != nil {
+			return
+		}
+		s.msgs = [][]byte{raw}
+		return
+	}
+	s.msgs = append(s.msgs, raw)
+}
+
+// ---------------------------------------------------------------------------- sending
+
+func (s *VerifScript) random32() []byte {
+	b := make([]byte, 32)
+	_, _ = io.ReadFull(s.Config.rand(), b)
+	t := s.Config.time().Unix()
+	b[0], b[1], b[2], b[3] = byte(t>>24), byte(t>>16), byte(t>>8), byte(t)
+	return b
+}
+
+func verifFrame(typ uint8, body []byte) []byte {
+	out, _ := dtlcpMarshalHeader(typ, body, 0, 0, uint24(len(body)))
+	return out
+}
+
+func (s *VerifScript) ownChain() [][]byte {
+	var out [][]byte
+	for i := 0; i < 2 && i < len(s.Config.Certificates); i++ {
+		if len(s.Config.Certificates[i].Certificate) > 0 {
+			out = append(out, s.Config.Certificates[i].Certificate[0])
+		}
+	}
+	if len(s.Config.Certificates) > 0 && len(s.Config.Certificates[0].Certificate) > 1 {
+		out = append(out, s.Config.Certificates[0].Certificate[1:]...)
+	}
+	return out
+}
+
+// build produces the marshalled message of the given kind from the script's current state.
+func (s *VerifScript) build(kind string, o *VerifSendOpts) ([]byte, error) {
+	switch kind {
+	case "ClientHello":
+		hello, err := s.c.makeClientHello()
+		if err != nil {
+			return nil, err
+		}
+		hello.sessionId = s.SessionID
+		if o.SessionID != nil {
+			hello.sessionId = o.SessionID
+		}
+		// the same hello is sent again after a HelloVerifyRequest, now with the cookie
+		if s.helloRandom == nil {
+			s.helloRandom = hello.random
+		}
+		hello.random = s.helloRandom
+		if o.Random != nil {
+			hello.random = o.Random
+		}
+		if s.Role == "client" {
+			hello.cookie = s.Cookie
+		}
+		if o.Cookie != nil {
+			hello.cookie = o.Cookie
+		}
+		return hello.marshal()
+
+	case "HelloVerifyRequest":
+		cookie := s.Cookie
+		if o.Cookie != nil {
+			cookie = o.Cookie
+		}
+		if cookie == nil {
+			cookie = make([]byte, 32)
+			_, _ = io.ReadFull(s.Config.rand(), cookie)
+		}
+		return (&helloVerifyRequestMsg{serverVersion: VersionTLCP, cookie: cookie}).marshal()
+
+	case "ServerHello":
+		sh := &serverHelloMsg{vers: VersionTLCP, random: s.random32(), compressionMethod: compressionNone}
+		if o.Random != nil {
+			sh.random = o.Random
+		}
+		id := s.Suite
+		if id == 0 {
+			var offered []uint16
+			if s.clientHello != nil {
+				offered = s.clientHello.cipherSuites
+			}
+			for _, want := range s.Config.cipherSuites() {
+				for _, have := range offered {
+					if want == have && id == 0 {
+						id = want
+					}
+				}
+			}
+			if id == 0 {
+				id = s.Config.cipherSuites()[0]
+			}
+		}
+		sh.cipherSuite = id
+		resume := s.ResumeMaster != nil && s.clientHello != nil && len(s.clientHello.sessionId) > 0
+		switch {
+		case o.SessionID != nil:
+			sh.sessionId = o.SessionID
+		case s.SessionID != nil:
+			sh.sessionId = s.SessionID
+		case resume:
+			sh.sessionId = s.clientHello.sessionId
+		default:
+			sh.sessionId = make([]byte, 32)
+			_, _ = io.ReadFull(s.Config.rand(), sh.sessionId)
+		}
+		return sh.marshal()
+
+	case "Certificate":
+		m := new(certificateMsg)
+		switch {
+		case o.EmptyCerts:
+		case o.Certificates != nil:
+			m.certificates = o.Certificates
+		default:
+			m.certificates = s.ownChain()
+		}
+		return m.marshal()
+
+	case "ServerKeyExchange":
+		hs := s.serverHS()
+		if hs.suite == nil {
+			return verifFrame(typeServerKeyExchange, []byte{0, 0}), nil
+		}
+		if o.SignKey != nil && hs.sigCert != nil {
+			c := *hs.sigCert
+			c.PrivateKey = o.SignKey
+			hs.sigCert = &c
+		}
+		if o.SignEncCert != nil && hs.encCert != nil {
+			c := *hs.encCert
+			c.Certificate = append([][]byte{o.SignEncCert}, c.Certificate[1:]...)
+			hs.encCert = &c
+		}
+		if o.SignClientRandom != nil {
+			ch := *hs.clientHello
+			ch.random = o.SignClientRandom
+			hs.clientHello = &ch
+		}
+		if o.SignServerRandom != nil {
+			sh := *hs.hello
+			sh.random = o.SignServerRandom
+			hs.hello = &sh
+		}
+		var skx *serverKeyExchangeMsg
+		var err error
+		if e := verifGuard(func() { skx, err = s.keyAgreement().generateServerKeyExchange(hs) }); e != nil {
+			err = e
+		}
+		if err != nil || skx == nil {
+			return verifFrame(typeServerKeyExchange, []byte{0, 0}), nil
+		}
+		return skx.marshal()
+
+	case "CertificateRequest":
+		m := &certificateRequestMsg{certificateTypes: []byte{byte(certTypeRSASign), byte(certTypeECDSASign)}}
+		if s.Config.ClientCAs != nil {
+			m.certificateAuthorities = s.Config.ClientCAs.Subjects()
+		}
+		return m.marshal()
+
+	case "ServerHelloDone":
+		return new(serverHelloDoneMsg).marshal()
+
+	case "ClientKeyExchange":
+		var pre []byte
+		var ckx *clientKeyExchangeMsg
+		var err error
+		if s.suite != nil {
+			if e := verifGuard(func() { pre, ckx, err = s.keyAgreement().generateClientKeyExchange(s.clientHS()) }); e != nil {
+				err = e
+			}
+		} else {
+			err = errors.New("no suite")
+		}
+		if err != nil || ckx == nil {
+			return verifFrame(typeClientKeyExchange, []byte{0, 4, 0x30, 0x02, 0x05, 0x00}), nil
+		}
+		if s.Role == "client" && !s.Resuming {
+			cr, sr := s.randoms()
+			s.setMaster(masterFromPreMasterSecret(VersionTLCP, s.suite, pre, cr, sr))
+		}
+		return ckx.marshal()
+
+	case "CertificateVerify":
+		m := new(certificateVerifyMsg)
+		var key crypto.PrivateKey = o.SignKey
+		if key == nil {
+			if c := s.ownCert(0); c != nil {
+				key = c.PrivateKey
+			}
+		}
+		h := s.fh()
+		if signer, ok := key.(crypto.Signer); ok {
+			var opts crypto.SignerOpts
+			if _, isSM2 := key.(*sm2.PrivateKey); isSM2 {
+				opts = sm2.NewSM2SignerOption(true, nil)
+			}
+			sig, err := signer.Sign(s.Config.rand(), h.Sum(), opts)
+			if err == nil {
+				m.signature = sig
+			}
+		}
+		if m.signature == nil {
+			m.signature = []byte{0x30, 0x00}
+		}
+		return m.marshal()
+
+	case "Finished":
+		m := new(finishedMsg)
+		h := s.fh()
+		// the label follows the role the script plays
+		if s.Role == "server" {
+			m.verifyData = h.serverSum(s.masterOrZero())
+		} else {
+			m.verifyData = h.clientSum(s.masterOrZero())
+		}
+		return m.marshal()
+	}
+	return nil, fmt.Errorf("verif script: unknown message kind %q", kind)
+}
+
+// Send builds (or takes from opts) the handshake message of the given kind, records it in the
+// script's transcript and writes it as one handshake record under the current write keys.
+func (s *VerifScript) Send(kind string, o *VerifSendOpts) error {
+	if o == nil {
+		o = &VerifSendOpts{}
+	}
+	typ, ok := verifTypeOfKind[kind]
+	if !ok {
+		return fmt.Errorf("verif script: unknown message kind %q", kind)
+	}
+	var raw []byte
+	var err error
+	switch {
+	case o.Again && s.lastSent[kind] != nil:
+		raw = s.lastSent[kind]
+	case o.Raw != nil:
+		raw = o.Raw
+	case o.Body != nil:
+		raw = verifFrame(typ, o.Body)
+	default:
+		raw, err = s.build(kind, o)
+		if err != nil {
+			return err
+		}
+	}
+	raw = append([]byte(nil), raw...)
+	if !o.Again && !(o.KeepSeq && (o.Raw != nil)) && len(raw) >= dtlcpHeaderLen {
+		seq := s.msgSeq
+		if o.MessageSeq != nil {
+			seq = *o.MessageSeq
+		} else {
+			s.msgSeq++
+		}
+		raw[4], raw[5] = byte(seq>>8), byte(seq)
+	}
+	if o.Mutate != nil {
+		raw = o.Mutate(raw)
+	}
+	s.lastSent[kind] = raw
+	// the script's own view of the hello it sends in its role
+	if kind == "ClientHello" && s.Role == "client" {
+		if m := new(clientHelloMsg); m.unmarshal(raw) {
+			s.clientHello = m
+		}
+	}
+	if kind == "ServerHello" && s.Role == "server" {
+		if m := new(serverHelloMsg); m.unmarshal(raw) {
+			s.serverHello = m
+			s.suite = cipherSuites[m.cipherSuite]
+			if s.ResumeMaster != nil && s.clientHello != nil && len(m.sessionId) > 0 &&
+				bytes.Equal(m.sessionId, s.clientHello.sessionId) {
+				s.Resuming = true
+				s.setMaster(s.ResumeMaster)
+			}
+		}
+	}
+	if !o.NoTranscript {
+		s.record(kind, raw)
+	}
+	// one unfragmented handshake record (the in-memory transports carry datagrams of any size)
+	return s.writeRecord(recordTypeHandshake, raw)
+}
